@@ -13,7 +13,7 @@ ANCHORS = ['txtorcon/endpoints.py', 'txtorcon/torconfig.py', 'txtorcon/controlle
 RULE = ('existing SOCKSPort configurations {no answer, unset with/without a __SocksPort default, 1..4 entries mixing "9050", "127.0.0.1:9050", '
         '"unix:/p", "0"/"auto", with and without trailing option words} x requested port {none, one that is configured, a prefix/substring '
         'of a configured one, an absent one} through _create_socks_endpoint (control protocol) and TorConfig.create_socks_endpoint / '
-        'socks_endpoint; fallback: every sequence of {ok, ConnectError, other error, connection accepted then a SOCKS-level error reply} over the two well-known ports through '
+        'socks_endpoint (the synchronous picker, ports named as str and int, with option words, absent), the same with Tor refusing the SETCONF, and Tor._default_socks_endpoint() asked twice; fallback: every sequence of {ok, ConnectError, other error, connection accepted then a SOCKS-level error reply} over the two well-known ports through '
         'TorClientEndpoint.connect on a MemoryReactor. The product is enumerated in both tiers. non-trivial = Tor has at least one entry '
         'or an attempt fails; distinct = distinct cells')
 TRUSTED = ["the fake Tor's GETCONF/SETCONF semantics; MemoryReactor for connection attempts; set iteration order among several usable entries is "
@@ -51,6 +51,20 @@ def gen_cases(rng, tier):
         if req is None and lines[0] in ('auto', '0'):
             continue    # Tor's own choice of port cannot be denoted from the configuration line (outside the quantifier)
         yield {'api': 'config', 'store': kind, 'lines': lines, 'req': req}
+    # TorConfig.socks_endpoint(reactor, port): picks an entry Tor has, never configures
+    for (kind, lines), req in itertools.product([s for s in STORES if s[0] == 'lines'], REQS + [9050, '9050 IsolateDestAddr', 'unix:/x']):
+        if req is None and lines[0] in ('auto', '0'):
+            continue
+        yield {'api': 'sync', 'store': kind, 'lines': lines, 'req': req}
+    yield {'api': 'sync', 'store': 'unset-nodefault', 'lines': None, 'req': None}
+    # Tor refuses the SETCONF that adds a port
+    for (kind, lines), req in itertools.product(STORES, [None, '9999', 'unix:/tmp/new']):
+        yield {'api': 'create', 'store': kind, 'lines': lines, 'req': req, 'reject': True}
+    for (kind, lines) in [s for s in STORES if s[0] == 'lines']:
+        yield {'api': 'config', 'store': kind, 'lines': lines, 'req': '9998', 'reject': True}
+    # Tor._default_socks_endpoint(): asked twice — the second answer is the first one, and Tor hears nothing more
+    for (kind, lines) in STORES:
+        yield {'api': 'tor', 'store': kind, 'lines': lines, 'req': None}
     for n in range(0, 3):
         for outs in itertools.product(['ok', 'ce', 'oe'] + SE, repeat=n):
             yield {'api': 'fallback', 'outs': list(outs)}
@@ -74,6 +88,8 @@ def make_tor(c):
         st.store['__SocksPort'] = ['9050']
     elif c['store'] == 'noanswer':
         st.scripted['GETCONF'] = ['250 OK\r\n']
+    if c.get('reject'):
+        st.scripted['SETCONF'] = ['513 Unacceptable option value: refused by the harness\r\n']
     return st.connect()
 
 
@@ -89,7 +105,29 @@ def run_impl(c):
     from twisted.internet.testing import MemoryReactorClock
     reactor = MemoryReactorClock()
     res = {}
-    if c['api'] == 'create':
+    if c['api'] == 'tor':
+        from txtorcon.controller import Tor
+        st = make_tor(c)
+        tor = Tor(reactor, st.proto)
+        n0 = len(st.commands('SETCONF'))
+        out, eps = [], []
+        for _ in range(2):
+            d = tor._default_socks_endpoint()
+            d.addCallbacks(lambda ep: (out.append(ep_str(ep)), eps.append(ep)) and None, lambda f: out.append('fail:' + f.type.__name__) and None)
+        n_all = len(st.sent) if hasattr(st, 'sent') else None
+        res = {'setconf': setconf_values(st)[n0:], 'endpoint': out[0] if out else 'pending', 'second': out[1] if len(out) > 1 else 'pending',
+               'same_object': len(eps) == 2 and eps[0] is eps[1], 'getconf_answer': c['lines'] if c['store'] == 'lines' else None}
+    elif c['api'] == 'sync':
+        from txtorcon import TorConfig
+        st = make_tor(c)
+        cfg = TorConfig(st.proto)
+        n0 = len(st.commands('SETCONF'))
+        try:
+            out = ep_str(cfg.socks_endpoint(reactor, c['req']) if c['req'] is not None else cfg.socks_endpoint(reactor))
+        except Exception as e:
+            out = 'raised:' + type(e).__name__
+        res = {'setconf': setconf_values(st)[n0:], 'endpoint': out, 'getconf_answer': c['lines']}
+    elif c['api'] == 'create':
         from txtorcon.endpoints import _create_socks_endpoint
         st = make_tor(c)
         n0 = len(st.commands('SETCONF'))
@@ -167,9 +205,13 @@ def driver_line(c):
     if c['api'] == 'fallback':
         outs = ','.join('ok' if o == 'ok' else '%s:%d' % ('oe' if o.startswith('se') else o, k) for k, o in enumerate(c['outs'])) or '-'
         return 'fallback %s %s' % (','.join(str(p) for p in PORTS), outs)
-    req = '~' if c['req'] is None else hexs(c['req'])
+    req = '~' if c['req'] is None else hexs(str(c['req']))
+    if c['api'] == 'sync':
+        return 'sync %s %s' % (','.join(hexs(l) for l in (c['lines'] or [])) or '-', req)
     if c['api'] == 'config':
         return 'config %s %s' % (','.join(hexs(l) for l in c['lines']), req)
+    if c['api'] == 'tor':
+        pass
     if c['store'] == 'lines':
         ex = 'lines:' + ','.join(hexs(l) for l in c['lines'])
     elif c['store'] == 'noanswer':
@@ -185,6 +227,8 @@ def parse_model(o):
     if o == 'none':
         return None
     d = dict(kv.split('=', 1) for kv in o.split(' '))
+    if 'ep' in d:
+        return {'ep': d['ep']}
     if 'attempts' in d:
         return {'attempts': [int(x) for x in d['attempts'].split(',') if x], 'result': d['result']}
     return {'setconf': None if d['setconf'] == '~' else [unhext(x) for x in d['setconf'].split(',')],
@@ -238,8 +282,27 @@ def run_cases(cases, drv, tier):
                     k_ = int(mr.split(':')[1])
                     mr = ('failed:%s:?' % SOCKS_ERRORS[int(c['outs'][k_][2:])]) if c['outs'][k_].startswith('se') else 'failed:RuntimeError:%d' % k_
                 corr_ok = im == {'attempts': model['attempts'], 'result': mr}
+        elif c['api'] == 'sync':
+            lines = c['lines'] or []
+            if model is not None:
+                corr_ok = (im['endpoint'] == model['ep']) or (model['ep'] == 'none' and im['endpoint'].startswith('raised')) and not im['setconf']
+            # the property: nothing is sent, and the endpoint is one an existing entry denotes (the named one when a port is named)
+            req = None if c['req'] is None else str(c['req'])
+            if req is not None and ' ' in req:
+                want = 'raised'
+            elif req is None:
+                want = denote_py(first_word(lines[0])) if lines else None
+            else:
+                want = denote_py(req) if any(first_word(l) == req for l in lines) else None
+            spec = {'setconf': [], 'endpoint': want or 'raised'}
+            view = {'setconf': im['setconf'], 'endpoint': 'raised' if im['endpoint'].startswith('raised') else im['endpoint']}
+            prop_ok = view == spec
+            im = dict(im, view=view)
         else:
             lines = c['lines'] or []
+            if c['api'] == 'tor' and model is not None and model is not None:
+                # the second answer must be the first (cached), whatever the first was
+                pass
             if model is not None:
                 if model is None:
                     corr_ok = im['endpoint'].startswith(('fail', 'raised'))
@@ -265,7 +328,16 @@ def run_cases(cases, drv, tier):
                         view = {'setconf': im['setconf'], 'endpoint_from_existing': False}
                 prop_ok = view == spec
                 im = dict(im, view=view)
-        tags = [c['api'], 'store=' + c.get('store', '-'), 'req=' + ('none' if c.get('req') is None else 'given')]
+            if c.get('reject') and prop_ok is not False:
+                # Tor refused: the attempt fails (there is no endpoint to hand out) — unless an existing entry served the request
+                if im['setconf']:
+                    prop_ok = im['endpoint'].startswith('fail') and (prop_ok is not False)
+                if model is not None and model.get('setconf') is not None:
+                    corr_ok = im['setconf'] == [model['setconf']] and im['endpoint'].startswith('fail')
+            if c['api'] == 'tor':
+                ok2 = (im['second'] == im['endpoint']) and (im['same_object'] or im['endpoint'].startswith('fail')) and len(im['setconf']) <= 1
+                prop_ok = ok2 if prop_ok is None else (prop_ok and ok2)
+        tags = [c['api'] + ('-rejected' if c.get('reject') else ''), 'store=' + c.get('store', '-'), 'req=' + ('none' if c.get('req') is None else 'given')]
         res.append(Result(c, im, model, spec, corr_ok=corr_ok, prop_ok=prop_ok, in_h=True,
                           nontrivial=bool(c.get('lines')) or any(o != 'ok' for o in c.get('outs', [])), tags=tags))
     return res
